@@ -8,7 +8,7 @@ Open Scope R_scope.
    error propagation) is computed; real arithmetic is left alone. *)
 Ltac sem_cbv :=
   cbv -[Rplus Rminus Rmult Rdiv Rinv Ropp IZR sqrt sin cos atan2 atan asin exp Rabs PI
-        Rleb Rltb Reqb Rle_dec Rlt_dec Req_EM_T].
+        Rleb Rltb Reqb Rle_dec Rlt_dec Req_EM_T Rrint Int_part up].
 
 Section R.
 Variables h mn : R.
@@ -44,19 +44,19 @@ Ltac sem_eval :=
   match goal with
   | |- is_qty ?h ?mn ?r ?p ?s ?d ?t =>
       let r' := eval cbv -[Rplus Rminus Rmult Rdiv Rinv Ropp IZR sqrt sin cos atan2 atan asin exp Rabs PI
-                           Rleb Rltb Reqb Rle_dec Rlt_dec Req_EM_T] in r in
+                           Rleb Rltb Reqb Rle_dec Rlt_dec Req_EM_T Rrint Int_part up] in r in
       change (is_qty h mn r' p s d t)
   | |- is_qty' ?h ?mn ?r ?p ?s ?d =>
       let r' := eval cbv -[Rplus Rminus Rmult Rdiv Rinv Ropp IZR sqrt sin cos atan2 atan asin exp Rabs PI
-                           Rleb Rltb Reqb Rle_dec Rlt_dec Req_EM_T] in r in
+                           Rleb Rltb Reqb Rle_dec Rlt_dec Req_EM_T Rrint Int_part up] in r in
       change (is_qty' h mn r' p s d)
   | |- is_nan ?h ?mn ?r ?s ?d ?t =>
       let r' := eval cbv -[Rplus Rminus Rmult Rdiv Rinv Ropp IZR sqrt sin cos atan2 atan asin exp Rabs PI
-                           Rleb Rltb Reqb Rle_dec Rlt_dec Req_EM_T] in r in
+                           Rleb Rltb Reqb Rle_dec Rlt_dec Req_EM_T Rrint Int_part up] in r in
       change (is_nan h mn r' s d t)
   | |- is_vec ?h ?mn ?r ?x ?y ?z ?s ?d =>
       let r' := eval cbv -[Rplus Rminus Rmult Rdiv Rinv Ropp IZR sqrt sin cos atan2 atan asin exp Rabs PI
-                           Rleb Rltb Reqb Rle_dec Rlt_dec Req_EM_T] in r in
+                           Rleb Rltb Reqb Rle_dec Rlt_dec Req_EM_T Rrint Int_part up] in r in
       change (is_vec h mn r' x y z s d)
   end.
 
